@@ -24,7 +24,8 @@ def run(ctx):
                 "event loop and every transition out of it is compared with the model; (b) random forced schedules "
                 "for 1-6 tasks over 1-3 keys biased to cancel queued / freshly woken / in-body tasks, completed "
                 "fairly; (c) natural runs on an ordinary running loop (asyncio's own FIFO order, recorded); the same "
-                "for plain asyncio.Lock objects (trusted primitive). distinct key = (mode, key assignment, schedule)")
+                "for plain asyncio.Lock objects (trusted primitive); (d) 2-4 worker tasks that each take their key 2-4 times in a "
+                "row with 0-2 yields outside/inside (monitor only). distinct key = (mode, key assignment, schedule)")
     ctx.prove()
     rng = random.Random(ctx.seed)
     exprs, meta = [], []
@@ -51,6 +52,18 @@ def run(ctx):
                        schedule_codes=sched))
         if i < 3:
             ctx.sample(dict(mode="forced", keys=keys, schedule=pretty(sched)))
+    # ---- (d) looping workers (monitor only: a task that takes the key again is just another acquirer) ----
+    n_loop = ctx.n(120, 1500)
+    loop_contended = 0
+    for i in range(n_loop):
+        seed = rng.randrange(1 << 30)
+        mon, facts = K.loop_run(random.Random(seed))
+        loop_contended += facts["contended_acquires"]
+        ctx.count(1, ("loop", tuple(facts["keys"]), facts["rounds"], seed % 1000))
+        note(mon, dict(kind="implementation-monitor", mode="looping-workers", seed=seed, keys=facts["keys"], plan=facts["plan"]))
+    ctx.programs += n_loop
+    ctx.suite("keyedlock.loops", cases=n_loop, contended_acquires=loop_contended)
+    ctx.require_coverage("keyedlock.loops", "contended_acquires", loop_contended, 50)
     # ---- (c) natural runs ----
     n_nat = ctx.n(80, 800)
     nat_steps = 0
